@@ -21,6 +21,10 @@ let parse_call (tok : string) : call =
   | ["F"; "psh"; o] -> CFeed (InPush (nat_of_int (int_of_string o)))
   | ["F"; "fin"; o] -> CFeed (InFin (nat_of_int (int_of_string o)))
   | ["F"; "alert"] -> CFeed InAlert | ["F"; "eof"] -> CFeed InEof | ["F"; "err"] -> CFeed InErr
+  | ["F"; "err"; "eof"] -> CFeed InEof   (* recv_loop takes an UnexpectedEof read error (a TLS peer that hangs up without
+                                            close_notify) as the end of the transport: the EOF path, not the error path *)
+  | ["F"; "err"; _] -> CFeed InErr   (* whatever other kind of error the transport read reports *)
+  | ["FAILK"; _] -> CFail            (* from now on every transport write fails, with the named error kind *)
   | ["F"; "cut"; _] -> CFeed InEof     (* EOF inside a frame: the same termination cause as a clean EOF *)
   | ["S"; d] -> CSend (bytes_of_hex d)
   | ["P"] -> CPump
